@@ -73,6 +73,7 @@ def repr_str(t):
 
 
 def cases(rng, tier):
+    yield from _linelike_cases()
     E, O = lambda s: ('err', s), lambda s: ('ok', s)
     # (1) slicing: exhaustive index triples on short sequences, random beyond
     lim = 4 if tier == 'quick' else 7
@@ -197,6 +198,30 @@ def cases(rng, tier):
                 b = bytes(items) + (sep if rng.random() < 0.3 else b"") + bytes(rand_seq(rng, 'bytes', 3))
                 yield Case(program=render(bi('ㄱㅁ', bi('ㅂㄹ', bytes_lit(b), bytes_lit(sep)), bytes_lit(sep))), tag='join-split-b',
                            monitor='c12_expect', data=O(fmt_seq('bytes', list(b))))
+
+
+def _linelike_cases():
+    """a separator that happens to be a line end (U+000A, CR, CRLF …) is a separator like any other: sources that end with
+    it, are empty, or hold *other* line-boundary characters split at the separator only (seeded change S12k used
+    str.splitlines for the separator "\\n")"""
+    E, O = lambda s: ('err', s), lambda s: ('ok', s)
+    srcs = ["a\nb\n", "", "\n", "x\r\ny", "a\rb\nc", "l1\n\nl3", "\na", "a\x0bb\x0cc\nd", "p\u2028q\nr\x85s", "no separator", "\n\n", "끝\n"]
+    seps = ["\n", "\r", "\r\n", "\x0c", "\u2028"]
+    for src in srcs:
+        for sep in seps:
+            pieces = src.split(sep)
+            yield Case(program=render(bi('ㅂㄹ', str_lit(src), str_lit(sep))), tag='split-linelike', monitor='c12_expect',
+                       data=O("[" + ", ".join("'" + p + "'" for p in pieces) + "]"))
+            yield Case(program=render(bi('ㄱㅁ', bi('ㅂㄹ', str_lit(src), str_lit(sep)), str_lit(sep))), tag='join-split-linelike',
+                       monitor='c12_expect', data=O("'" + src + "'"))
+            yield Case(program=render(bi('ㅈㄷ', bi('ㅂㄹ', str_lit(src), str_lit(sep)))), tag='split-linelike-count', monitor='c12_expect',
+                       data=O(str(len(pieces))))
+            if all(ord(ch) < 128 for ch in src + sep):
+                b, bs = src.encode(), sep.encode()
+                yield Case(program=render(bi('ㄱㅁ', bi('ㅂㄹ', bytes_lit(b), bytes_lit(bs)), bytes_lit(bs))), tag='join-split-linelike-b',
+                           monitor='c12_expect', data=O(fmt_seq('bytes', list(b))))
+                yield Case(program=render(bi('ㅈㄷ', bi('ㅂㄹ', bytes_lit(b), bytes_lit(bs)))), tag='split-linelike-count-b', monitor='c12_expect',
+                           data=O(str(len(b.split(bs)))))
 
 
 SPEC = {
